@@ -21,10 +21,11 @@ def file_text(fid, cls, provider):
 
 
 DISK = {  # mirrors spec/MC_Cli.tla
-    "dirof": {"v1": "dA", "d1": "dA", "v2": "dB", "s1": "dB", "v3": "dD", "l1": "dE", "y1": "dF", "w1": "dG", "W1": "dG"},
-    "classof": {"v1": "V", "d1": "D", "v2": "V", "s1": "S", "v3": "V", "l1": "L", "y1": "Y", "w1": "S", "W1": "V"},
+    "dirof": {"v1": "dA", "d1": "dA", "v2": "dB", "s1": "dB", "v3": "dD", "l1": "dE", "y1": "dF", "w1": "dG", "W1": "dG", "k1": "dH"},
+    "classof": {"v1": "V", "d1": "D", "v2": "V", "s1": "S", "v3": "V", "l1": "L", "y1": "Y", "w1": "S", "W1": "V", "k1": "Y"},
     "provider": {"d1": "v1"},
-    "dirs": ["dA", "dB", "dC", "dD", "dE", "dF", "dG"],
+    "dirs": ["dA", "dB", "dC", "dD", "dE", "dF", "dG", "dH"],
+    "links": ["k1"],          # present in their directory as a symbolic link to a regular file outside the listed directories
     "baddirs": ["dD"],
 }
 
@@ -52,7 +53,13 @@ def make_disk(root, disk=DISK, texts=None, enc=None):
         os.makedirs(os.path.join(root, d, "sub"))
     for f, d in disk["dirof"].items():
         t = texts[f] if texts else file_text(f, disk["classof"][f], disk["provider"].get(f))
-        with open(os.path.join(root, d, f + ".st"), "wb") as fh:
+        if f in disk.get("links", []):
+            os.makedirs(os.path.join(root, "_targets"), exist_ok=True)
+            with open(os.path.join(root, "_targets", f + ".st"), "wb") as fh:   # (links keep the .st name)
+                fh.write(encode(t, (enc or {}).get(f, "utf8")))
+            os.symlink(os.path.join("..", "_targets", f + ".st"), os.path.join(root, d, f + ".st"))
+            continue
+        with open(os.path.join(root, d, f + disk.get("ext", {}).get(f, ".st")), "wb") as fh:
             fh.write(encode(t, (enc or {}).get(f, "utf8")))
     return root
 
@@ -61,7 +68,7 @@ def path_of(p, disk=DISK):
     if p == "?missing":
         return MISSING
     if p in disk["dirof"]:
-        return os.path.join(disk["dirof"][p], p + ".st")
+        return os.path.join(disk["dirof"][p], p + disk.get("ext", {}).get(p, ".st"))
     return p
 
 
@@ -74,15 +81,21 @@ def entry_of(path, disk=DISK):
         return "?missing"
     if b == "sub":
         return "?sub:" + os.path.basename(os.path.dirname(path.rstrip("/")))
-    if b.endswith(".st") and b[:-3] in disk["dirof"]:
-        return b[:-3]
+    stem = os.path.splitext(b)[0]
+    if stem in disk["dirof"] and b == stem + disk.get("ext", {}).get(stem, ".st"):
+        return stem
     return "?path:" + b
 
 
 def run(root, cmd, args, disk=DISK, timeout=60, verb=0):
     """verb: how often -v is given (Cli.tla: verb) - logging to a file, never part of the observation"""
     r = vlib.run_cli((["-" + "v" * verb] if verb else []) + [cmd] + [path_of(a, disk) for a in args], cwd=root, timeout=timeout)
-    obs = {"rc": r["rc"], "timeout": r.get("timeout", False)}
+    # the property speaks of "exits 0" / "exits non-zero": every ordinary non-zero status is the failure status 1 of Cli.tla;
+    # a panic (101), an abort or a signal stays what it is
+    rc = r["rc"]
+    if rc is not None and 1 < rc < 101:
+        rc = 1
+    obs = {"rc": rc, "rc_raw": r["rc"], "timeout": r.get("timeout", False)}
     out_lines = r["stdout"].splitlines()
     if cmd == "check":
         obs["ok"] = r["stdout"].strip() == "OK"
